@@ -1538,7 +1538,12 @@ class Lib(object):
         saved = {k: st.env.get(k, _MISSING) for k in ["acc"] + [n.id for n in ast.walk(g.target) if isinstance(n, ast.Name)]}
         st.env["acc"] = init
         st.env["__snoc__"] = _SNOC
-        engine.cur_loop_contract = engine.loop_contract(loop)[1]
+        try:
+            engine.cur_loop_contract = engine.loop_contract(loop)[1]
+        except CheckerError:
+            # no loop contract: fine when the iterable turns out to be a literal sequence (unrolled); for_over reports the
+            # missing contract itself otherwise
+            engine.cur_loop_contract = {}
         for st1, out in engine.exec_stmt(st, loop):
             res = st1.env.get("acc")
             for k, v in saved.items():
